@@ -611,8 +611,10 @@ bool Parser::parse_patch_header(Patch& patch, PatchHeaderInfo& header_info, int 
         }
 
         if (parser.consume_specific("Prereq: ")) {
-            // NOTE: this is a word to look for in the file and not the name of one, there is nothing to strip.
-            parser.parse_file_line(0, patch.prerequisite);
+            // NOTE: this is a word to look for in the file and not the name of one, there is nothing to strip or to unquote.
+            patch.prerequisite.clear();
+            while (!parser.is_eof() && parser.peek() != ' ' && parser.peek() != '\t')
+                patch.prerequisite += parser.consume();
             continue;
         }
 
